@@ -102,6 +102,18 @@ impl GarbageCollectionLock {
             .map_err(Error::from)
     }
 
+    /// Returns true if a lock file is present, determined by trying to read it
+    /// rather than by asking for its metadata.
+    ///
+    /// This is the second look that a backup takes after creating its band.
+    pub(crate) async fn lock_file_present(archive: &Archive) -> Result<bool> {
+        match archive.transport().read(GC_LOCK).await {
+            Ok(_) => Ok(true),
+            Err(err) if err.is_not_found() => Ok(false),
+            Err(err) => Err(err.into()),
+        }
+    }
+
     /// Check that no new versions have been created in this archive since
     /// the guard was created.
     pub async fn check(&self) -> Result<()> {
